@@ -53,9 +53,9 @@ def run(tier, wd):
         seed = core.seed() * 100 + k
         env = dict(os.environ, GORACE="halt_on_error=0 exitcode=66", GOTRACEBACK="single")
         try:
-            pr = subprocess.run([racebin, "conc", str(rounds), str(gor), str(seed)], capture_output=True, text=True, timeout=1200, env=env)
+            pr = subprocess.run([racebin, "conc", str(rounds), str(gor), str(seed)], capture_output=True, text=True, timeout=900 if q else 5400, env=env)
         except subprocess.TimeoutExpired:
-            rep.violation("concurrent run (seed %d) did not finish within 20 min" % seed, {"engine": "conc", "seed": seed, "rounds": rounds, "goroutines": gor})
+            rep.violation("concurrent run (seed %d) did not finish within the time limit (15 min quick / 90 min thorough)" % seed, {"engine": "conc", "seed": seed, "rounds": rounds, "goroutines": gor})
             continue
         races = pr.stderr.count("WARNING: DATA RACE")
         line = [l for l in pr.stdout.splitlines() if l.startswith("CONC ")]
@@ -99,7 +99,7 @@ def replay(path, wd):
         o = json.load(f)["replay"]
     racebin = core.build_harness(race=True)
     env = dict(os.environ, GORACE="halt_on_error=0 exitcode=66")
-    pr = subprocess.run([racebin, "conc", str(o["rounds"]), str(o["goroutines"]), str(o["seed"])], capture_output=True, text=True, timeout=1200, env=env)
+    pr = subprocess.run([racebin, "conc", str(o["rounds"]), str(o["goroutines"]), str(o["seed"])], capture_output=True, text=True, timeout=900, env=env)
     line = [l for l in pr.stdout.splitlines() if l.startswith("CONC ")]
     bad = "WARNING: DATA RACE" in pr.stderr or not line
     if line:
